@@ -17,6 +17,9 @@ G = 100
 class ERR(Exception):
     pass
 
+class BERR(BaseException):
+    pass
+
 def E(k, v):
     LOG.append(("E", k, FREEZE(v)))
     return v
@@ -232,6 +235,7 @@ DRIVERS_QUICK = [
     ("next", "drop"),
     ("drop",),
     ("send",),
+    ("next", "throwbase"),
 ]
 DRIVERS_THOROUGH = DRIVERS_QUICK + [
     ("next", "send", "send", "send"),
@@ -256,6 +260,8 @@ def drive(gen, driver, w):
                 tr.append(("yielded", freeze(gen.send(5))))
             elif op == "throw":
                 tr.append(("yielded", freeze(gen.throw(ERR("thrown")))))
+            elif op == "throwbase":
+                tr.append(("yielded", freeze(gen.throw(w.ns["BERR"]("thrown-base")))))
             elif op == "close":
                 r = gen.close()
                 tr.append(("closed", freeze(r)))
